@@ -234,6 +234,16 @@ func moreBlockScenarios(tier string) []*linScenario {
 		&linScenario{name: "block/W1(k1,k2),W2(k2)|LPUSHk1||LPUSHk2", threads: [][][]string{W("BLPOP", "k1", "k2", "0"), W("BLPOP", "k2", "0"), W("LPUSH", "k1", "a"), W("LPUSH", "k2", "b")}, phases: []int{0, 1, 2, 2}, allowPending: true, noLin: true},
 		&linScenario{name: "block/W1(k1,k2,k3),W2(k3),W3(k2)|EXEC(LPUSHk1,LPUSHk3,LPUSHk2)", threads: [][][]string{W("BRPOP", "k1", "k2", "k3", "0"), W("BLPOP", "k3", "0"), W("BLMOVE", "k2", "m", "LEFT", "LEFT", "0"), T([]string{"MULTI"}, []string{"LPUSH", "k1", "a"}, []string{"LPUSH", "k3", "c"}, []string{"LPUSH", "k2", "b"}, []string{"EXEC"})}, phases: []int{0, 1, 1, 2}, allowPending: true, noLin: true, boundDelta: -1}, // four threads: one preemption less
 	)
+	// a woken waiter that does not consume the element - its move fails on a wrong-typed destination, or it
+	// rotates a list onto itself - must not swallow the wake-up: the next waiter of the key is served
+	out = append(out,
+		&linScenario{name: "block/BLMOVE-wrongtype-dst,W2|RPUSH", setup: [][]string{{"SET", "dst", "a-string"}}, threads: [][][]string{W("BLMOVE", "src", "dst", "LEFT", "LEFT", "0"), W("BLPOP", "src", "0"), W("RPUSH", "src", "x")}, phases: []int{0, 1, 2}, allowPending: true, noLin: true,
+			extra: expectOracle([][]string{{"-WRONGTYPE*"}, {`["src" "x"]`}, {":1"}})},
+		&linScenario{name: "block/BRPOPLPUSH-wrongtype-dst,W2|RPUSH", setup: [][]string{{"SADD", "dst", "m"}}, threads: [][][]string{W("BRPOPLPUSH", "src", "dst", "0"), W("BRPOP", "src", "0"), W("RPUSH", "src", "x")}, phases: []int{0, 1, 2}, allowPending: true, noLin: true,
+			extra: expectOracle([][]string{{"-WRONGTYPE*"}, {`["src" "x"]`}, {":1"}})},
+		&linScenario{name: "block/BLMOVE-onto-itself,W2|RPUSH", threads: [][][]string{W("BLMOVE", "a", "a", "LEFT", "RIGHT", "0"), W("BLPOP", "a", "0"), W("RPUSH", "a", "x")}, phases: []int{0, 1, 2}, allowPending: true, noLin: true,
+			extra: expectOracle([][]string{{`"x"`}, {`["a" "x"]`}, {":1"}})},
+	)
 	// a woken waiter whose element was taken again waits on at the FRONT of the queue: the next push,
 	// made after everything has come to rest, goes to it and not to the client that blocked later
 	spur := T([]string{"MULTI"}, []string{"RPUSH", "k", "stolen"}, []string{"LPOP", "k"}, []string{"EXEC"})
